@@ -22,6 +22,7 @@ RULE = (
     "distinct = distinct case JSON."
     ' Also: refusal of plates holding observed and masked rows (partial set_observed, mixed merge).'
     ' Also: production-size refusals (70000 .. 524298 observations, one NaN / negative value near the end): nothing kept, the repaired batch counts once.'
+    ' Also: first batch / sweep / second batch / sweep on one model (rows and intercept).'
 )
 ASSUMPTIONS = [
     "both runs execute under 'controlled randomness' (global numpy state seeded, unseeded default_rng() made a function of the seed) so that non-interference is decided independently of C18",
@@ -383,6 +384,21 @@ def check_case(case):
                 h = sampling.sample(model=m_, results=ThetaHolder(n_thetas=3), seed=case["seed"], n_chains=1, chain_index=0, n_burnin=1, thin=1)
             outs.append([_theta_items(t) for t in h.thetas])
         require(_same(outs[0], outs[1]), "training_set.two_batches.posterior", lambda: "posterior samples differ when the same %d observed experiments are added in two batches (%d + %d) instead of one" % (observed.size, k, observed.size - k))
+        # the same experiments arriving while the chain is running: first batch, a sweep, second batch, a sweep (no reset in between) -
+        # the model is then trained on all of them, each once: its rows are those of the one-batch model and its intercept (documented
+        # as the mean of the transformed observations) is their mean
+        m_run = cls(experiment_space=ExperimentSpace.from_screen(screen_a), n_embedding_dimensions=case["D"])
+        m_run.add_observations(observed.subset(first))
+        m_run.set_rng(np.random.default_rng(case["seed"] % 1000))
+        with np.errstate(all="ignore"):
+            m_run.step()
+            m_run.add_observations(observed.subset(~first))
+            m_run.step()
+        require(_same(_training_arrays(m_one), _training_arrays(m_run)) and m_one.n_obs() == m_run.n_obs(), "training_set.interleaved.rows", "training rows differ when the second batch of observed experiments arrives between two sweeps")
+        wm_ = getattr(m_run, "wrapped_model", None)
+        if wm_ is not None and hasattr(wm_, "alpha") and hasattr(wm_, "y") and getattr(wm_, "fake_intercept", True) and len(wm_.y):
+            ybar_ = float(np.mean(np.asarray(wm_.y, dtype=float)))
+            require(abs(float(wm_.alpha) - ybar_) <= 1e-5 * (1 + abs(ybar_)), "training_set.interleaved.intercept", lambda: "after first batch / sweep / second batch / sweep the model's intercept is %r; the mean of the transformed observations it holds (%d) is %r" % (float(wm_.alpha), len(wm_.y), ybar_))
 
     # ---- refusals
     obs_ids = sorted(int(p_.plate_id) for p_ in screen_a.plates if bool(np.all(p_.observation_mask)))
